@@ -313,6 +313,119 @@ def canonicalise_structs(text, st):
     return text, renamed
 
 
+RXSTREAM = "io::packet_stream::RxPacketStream"
+STATE = "io::packet_stream::PacketStreamState"
+
+
+def detect_stream(d):
+    """Fields of RxPacketStream by type, its state enum and the roles of the enum's variants by what the state's arm of
+    poll_next does (reads from the transport / parses the length / hands out the packet).
+    Returns {"fields": {canonical: actual}, "state_adt": actual path, "variants": {canonical: actual}}"""
+    adts = {a["path"]: a for a in d["adts"]}
+    rs = adts.get(RXSTREAM)
+    if rs is None:
+        return None
+    out = {"fields": {}, "state_adt": None, "variants": {}}
+    usizes = []
+    for x in rs["variants"][0]["fields"]:
+        t = x["ty"]
+        if t == "bytes::BytesMut":
+            out["fields"]["buf"] = x["name"]
+        elif t == "usize":
+            usizes.append(x["name"])
+        elif t.startswith("std::ops::Range<usize>"):
+            out["fields"]["packet"] = x["name"]
+        elif t in adts and adts[t]["kind"] == "enum":
+            out["fields"]["state"] = x["name"]
+            out["state_adt"] = t
+        elif re.fullmatch(r"[A-Z]\w*", t):
+            out["fields"]["stream"] = x["name"]
+    if len(usizes) == 1:
+        out["fields"]["size"] = usizes[0]
+    if not out["state_adt"]:
+        return out
+    by_path = {f["path"]: f for f in d["fns"]}
+    pn = [f for f in d["fns"] if f["kind"] == "fn" and f["name"] == "poll_next" and (f.get("impl_self") or "").startswith(RXSTREAM + "<")]
+    if not pn:
+        return out
+    pn = pn[0]
+    blocks = pn["blocks"]
+
+    def calls_in(fn, start, stops, depth=0):
+        """Names of the callees reachable from block `start` of fn without entering a block of `stops` (one level into
+        local helper methods of the stream)."""
+        seen, stack, names = set(), [start], set()
+        bl = fn["blocks"]
+        while stack:
+            i = stack.pop()
+            if i in seen or i in stops or bl[i]["cleanup"]:
+                continue
+            seen.add(i)
+            t = bl[i]["term"]
+            if t["k"] == "call" and t.get("callee"):
+                c = t["callee"]
+                nm = (c.get("resolved") or c["def"])
+                names.add(nm)
+                if depth < 2 and nm in by_path and (by_path[nm].get("impl_self") or "").startswith(RXSTREAM) and by_path[nm]["name"] != "poll_next":
+                    names |= calls_in(by_path[nm], 0, set(), depth + 1)
+            for key in ("t", "otherwise"):
+                if isinstance(t.get(key), int):
+                    stack.append(t[key])
+            for v, bb in t.get("targets", []):
+                stack.append(bb)
+        return names
+    # the dispatch: a switch whose operand is the discriminant of the state enum
+    variants = {v["discr"]: v["name"] for v in adts[out["state_adt"]]["variants"]}
+    best = None
+    for i, b in enumerate(blocks):
+        t = b["term"]
+        if t["k"] != "switch":
+            continue
+        if any(st["k"] == "assign" and st["rv"]["k"] == "discr" and st["rv"].get("adt") == out["state_adt"] for st in b["stmts"]):
+            if best is None or len(t["targets"]) > len(best[1]["targets"]):
+                best = (i, t)
+    if best is None:
+        return out
+    i0, t0 = best
+    entries = {v: bb for v, bb in t0["targets"]}
+    listed = set(entries)
+    rest = [v for v in variants if v not in listed]
+    if t0.get("otherwise") is not None and len(rest) == 1:
+        entries[rest[0]] = t0["otherwise"]
+    for v, bb in entries.items():
+        stops = {x for w, x in entries.items() if w != v} | {i0}
+        names = calls_in(pn, bb, stops)
+        role = None
+        if any(n.endswith("::poll_read") for n in names):
+            role = "Idle"
+        elif any("VarSizeInt" in n and "try_from" in n for n in names):
+            role = "ReadPacketLen"
+        elif any(n.endswith("RxPacket as core::utils::TryDecode>::try_decode") or n.endswith("BytesMut::split_to") for n in names):
+            role = "ReadPacketData"
+        if role and role not in out["variants"] and v in variants:
+            out["variants"][role] = variants[v]
+    return out
+
+
+def canonicalise_stream(text, sd):
+    renamed = []
+    if not sd:
+        return text, renamed
+    if sd.get("state_adt") and sd["state_adt"] != STATE:
+        text = _sub_path(text, sd["state_adt"], STATE)
+        renamed.append(["struct", STATE, sd["state_adt"]])
+    fields = {(RXSTREAM, k): v for k, v in sd["fields"].items() if k != v}
+    if fields:
+        text, rn = canonicalise_structs(text, {"adts": {}, "fields": fields})
+        renamed += rn
+    for canon, actual in sd.get("variants", {}).items():
+        if canon != actual:
+            # variant names are bare identifiers in the fact base: the token is replaced wherever it stands as a whole string
+            text = text.replace('"%s"' % actual, '"%s"' % canon)
+            renamed.append(["variant", "%s::%s" % (STATE, canon), actual])
+    return text, renamed
+
+
 def load_canonical(path):
     if path.endswith(".gz"):
         import gzip
@@ -335,6 +448,18 @@ def load_canonical(path):
                             if x["name"] == actual:
                                 x["name"] = k
         text2 = None
+    sd = detect_stream(d)
+    if sd:
+        t_s, rn_s = canonicalise_stream(json.dumps(d, separators=(",", ":")), sd)
+        if rn_s:
+            d = json.loads(t_s)
+            renamed += rn_s
+            for a in d["adts"]:
+                if a["path"] == RXSTREAM:
+                    for x in a["variants"][0]["fields"]:
+                        for k, v in sd["fields"].items():
+                            if x["name"] == v:
+                                x["name"] = k
     fns, prefix = detect_fns(d)
     # the two u16 fields of Connection: handle_connack assigns quota := receive maximum
     q = _quota_fields(d, fns)
@@ -363,7 +488,7 @@ def load_canonical(path):
             last = f["path"].split("::")[-1]
             if f["kind"] == "fn" and re.fullmatch(r"\w+", last):
                 f["name"] = last
-    d["_roles"] = {"detected": {"structs": st["adts"], "fns": fns, "fields": {"%s.%s" % k: v for k, v in st["fields"].items()}},
+    d["_roles"] = {"detected": {"structs": st["adts"], "fns": fns, "fields": {"%s.%s" % k: v for k, v in st["fields"].items()}, "stream": sd},
                    "renamed": renamed}
     return d
 
